@@ -80,6 +80,11 @@ CHECKS = {
         technique="exhaustive enumeration of every payload length 0..3P+20 x MTUs x 3 contents through the real split/reassembly code; all permutations and single duplications of the datagrams of 10 message sets at a fresh receiver; deviation-bounded exploration (<=2 of drop/dup/delay + blackouts) of two fragmented messages in flight on the real stack",
         text="Lengths: 3.6e4 (quick, 4 MTUs) / 1.2e5 (14 MTUs) cases incl. all-zero and header-look-alike contents, single-datagram rule, fragment size, limit and limit+1. Orders: 6.5e3 arrival orders. Faults: 4.7e3 (quick) executions; every delivery checked byte-for-byte against the multiset sent (no fabrication, no duplication), lossless runs must deliver everything.",
         note="peer assumed honest (authenticated); <=2 deviations in the fault part"),
+    "C01": dict(
+        engine="mcx", category="model_checking", design="5/C01",
+        technique="fault-family exploration at scripted protocol points of the real stack: every element of a structured attacker family (forged plaintext+CRC over all types x counts x inner types, all bit flips/truncations/extensions/header rewrites of genuine unreceived datagrams, wrong-key and foreign-session ciphertext) injected through the real entry points with complete before/after state snapshots; positive control with the genuine datagrams",
+        text="9 protocol points (client: connecting, idle, busy with pending sends+half-received fragment, disconnected; server: new address, temp pool, idle, busy, after disconnect) x 5.2e4 (quick) / 1.2e5 (thorough) structured injections via UdpClient.update and TwistedServer.datagramReceived + the real server loop; any change of key, status, liveness clock, windows, pending acks/callbacks/retries, delivered messages, pools, handler events or bytes sent is a violation; genuine datagrams must still be accepted afterwards.",
+        note="single injections (no pairs); cryptographic strength of AES-GCM assumed; random-bytes supplement (8640, seeded) listed separately and not part of the exhaustive claim"),
 }
 
 NOT_YET = {
